@@ -218,6 +218,46 @@ def register(reg):
                  modifies=[])
     units['get_updated_parsing_state_from_delta'] = FunctionUnit(c, inline=INL_DELTA - {DELTA + 'get_updated_parsing_state_from_delta'})
 
+    # ---- ParsingStateDeltaChained: the deltas are applied one after the other, each to the state its predecessor produced ---------
+    def setup_chained(it):
+        ctx = it.ctx
+        ps = mk_state(it)
+        n = ctx.choose(4, 'number of chained deltas')         # bounded: chains of at most three entries (stated)
+        log = ctx.ghost.setdefault('chain_applications', [])
+        deltas = []
+        for j in range(n):
+            if ctx.choose(2, 'delta %d is None' % j) == 1:
+                deltas.append(None)
+                continue
+
+            def upd(it2, sf, a, kw, j=j):
+                out = mk_state(it2, 'state_after_delta_%d' % j)
+                log.append((j, a[0], out))
+                return out
+            deltas.append(AbsVal(z3.Int('delta%d' % j), 'parsing_state_delta', methods={'get_updated_parsing_state': upd},
+                                 attrs={'truth': lambda it3, sf: True}))
+        ctx.ghost['chain'] = deltas
+        me = new_obj(it, DELTA + 'ParsingStateDeltaChained', {'parsing_state_deltas': PyList(deltas)}, tag='self')
+        return {'self': me, 'parsing_state': ps, 'latex_walker': mk_walker(it)}
+
+    @reg.spec('applied_one_after_the_other')
+    def applied_one_after_the_other(it, ps, result):
+        deltas = it.ctx.ghost['chain']
+        log = it.ctx.ghost.get('chain_applications', [])
+        want = [j for j, d in enumerate(deltas) if d is not None]
+        if [j for j, _i, _o in log] != want:
+            return False
+        cur = ps
+        for (_j, given, out) in log:
+            if given is not cur:
+                return False
+            cur = out
+        return result is cur
+    c = Contract(DELTA + 'ParsingStateDeltaChained.get_updated_parsing_state', setup=setup_chained,
+                 ensures=[('internal:each-delta-is-applied-once-in-order-to-the-state-its-predecessor-produced',
+                           'applied_one_after_the_other(parsing_state, result)')], modifies=[])
+    units['ParsingStateDeltaChained.get_updated_parsing_state'] = FunctionUnit(c)
+
     # ---- LatexMathParserInfo ----------------------------------------------------------------------------------------------------------
     def mk_info(it, initialized):
         ctx = it.ctx
